@@ -18,6 +18,8 @@ def run(chk):
     clones.rule_clones(chk, 'N1', select=lambda s: bool(_re.search(r'cmac|xcbc|ghash|gmac|ccm_auth', s)), floor=3)
     clones.rule_defuse(chk, 'D1', 'D2', ('hash',), floor=50)
     clones.rule_tables(chk, 'N5', ('hash',), floor=20)
+    from . import twins as _tw
+    _tw.rule_copy_siblings(chk, cf.PROGRAM[0] or cf.Program(), 'X5', floor=100)
     from . import twins
     twins.rule_common_flag(chk, P, 'Z1', floor=6)
     twins.rule_wrapper_constants(chk, P, 'X3', floor=150)
